@@ -213,6 +213,19 @@ def same_elements(a, b):
     return len(a) == len(b) and all((x is y) or (type(x) is type(y) and same_value(x, y)) for x, y in zip(a, b))
 
 
+def elems_are(lst, ty):
+    """representation invariant of a list: every element has the type, e.g. "tuple-of-3-int" (assumed symbolically at
+    each read of an element; natively an input that violates it is outside the precondition)"""
+    if ty.startswith("tuple-of-") and ty.endswith("-int"):
+        n = int(ty[9:-4])
+        ok = all(isinstance(x, tuple) and len(x) == n and all(isinstance(i, int) and not isinstance(i, bool) for i in x) for x in lst)
+    else:
+        raise ValueError(ty)
+    if not ok:
+        raise AssumeFailed()
+    return True
+
+
 def same_ref(a, b):
     """identity of two object references / singletons (None, UNDEFINED, NULL)"""
     return a is b
